@@ -128,8 +128,18 @@ def check(case):
         raise PropertyViolation(f"weights_ index {w.index.tolist()} does not label predictors_ {preds.index.tolist()}")
     labels = preds.index.tolist()
     wv = np.asarray([float(w.loc[k]) for k in labels])
-    if not np.all(np.isfinite(wv)) or wv.min() < -1e-12 or abs(wv.sum() - 1.0) > 1e-9:
+    if not np.all(np.isfinite(wv)) or wv.min() < -1e-9 or abs(wv.sum() - 1.0) > 1e-6:  # LP (HiGHS) tolerance
         raise PropertyViolation(f"weights_ is not a probability vector: {wv.tolist()} (sum {wv.sum()!r})")
+    # the randomised classifier that is actually served (_pmf_predict) is this Q: label-aligned mixture
+    pm = np.asarray(eg._pmf_predict(X), dtype=float)
+    mix = np.zeros(len(pm))
+    for k, wk in zip(labels, wv):
+        if wk != 0:
+            mix += wk * np.asarray(preds.loc[k].predict(X), dtype=float)
+    if pm.shape != (len(mix), 2) or np.abs(pm[:, 1] - mix).max() > 1e-9 or np.abs(pm.sum(axis=1) - 1).max() > 1e-9:
+        raise PropertyViolation(
+            f"_pmf_predict is not the weights_-weighted mixture of predictors_: P(1) = {pm[:, 1].tolist() if pm.ndim == 2 else pm.tolist()}, mixture = {mix.tolist()}, weights_ = {w.to_dict()}"
+        )
 
     g = _scalar("best_gap_", eg.best_gap_)
     last_iter = int(_scalar("last_iter_", eg.last_iter_))
